@@ -10,6 +10,7 @@ from mc.oracles import thermal
 import pandapipes as pp
 
 ID = "C11"
+CASE_WEIGHT = 3   # relative cost of one case (pool sizing)
 LEVEL = "exploration"
 RULE = ("ladder loops (supply/return line, circulation pump pressure or mass, 1..k rungs): all assignments of rung kinds "
         "{consumer MF_QE, MF_DT, MF_TR, QE_DT, QE_TR, flow control + heat exchanger} to k<=2 (quick) / k<=3 (thorough) rungs "
